@@ -7,7 +7,7 @@ import json, os, subprocess, sys
 from concurrent.futures import ThreadPoolExecutor
 
 VERIF = os.path.dirname(os.path.dirname(os.path.abspath(__file__)))
-PROPS = ['C%02d' % i for i in range(1, 21)]
+PROPS = os.environ.get('HARMLESS_CHECKS', '').split(',') if os.environ.get('HARMLESS_CHECKS') else ['C%02d' % i for i in range(1, 21)]
 TIER = 'quick'
 
 
